@@ -60,9 +60,15 @@ class C10(LoopCheck):
                 prior_flow=flow,
                 xp=sx,
                 parameters=[f"p{k}" for k in range(d)],
+                **({"dtype": cfg["dtype"]} if cfg.get("dtype") else {}),
             )
             ctx.notes["int_enum_max"] = n
             out = smp.draw_initial_samples(n)
+            if cfg.get("check_c15"):
+                # the requested precision survives rejection, concatenation and trimming
+                from harness.loop_checks import check_precision
+
+                check_precision(ctx, out, sx.float32 if cfg.get("dtype") == "float32" else sx.float64, "c15/initial_population", {"draw_rounds": flow.n_draws})
             fin = lambda t: z3.Not(z3.Or(z3.fpIsNaN(t), z3.fpIsInf(t)))  # noqa: E731
             # specification: the first n finite-prior rows in draw order
             rows = []
@@ -126,7 +132,7 @@ def replay_initial(cex):
             x = np.asarray(x)
             out = -np.sum(np.abs(x), axis=-1)
             for r, row in enumerate(x):
-                if lookup.get(tuple(row)) in invalid:
+                if lookup.get(tuple(np.asarray(row, np.float32).tolist())) in invalid:
                     out[r] = nonfinite
             return out
 
@@ -139,7 +145,7 @@ def replay_initial(cex):
                 state["k"] += 1
                 x = draws[k].copy()
                 for i, row in enumerate(x):
-                    lookup[tuple(row)] = (k, i)
+                    lookup[tuple(np.asarray(row, np.float32).tolist())] = (k, i)
                 return x, Qf(x)
 
         calls = {"n": 0}
@@ -148,11 +154,21 @@ def replay_initial(cex):
             calls["n"] += len(s.x)
             return Lf(s.x)
 
-        smp = MCMCSampler(log_likelihood=Lw, log_prior=lambda s: Pf(s.x), dims=d, prior_flow=Flow(), xp=np)
+        smp = MCMCSampler(log_likelihood=Lw, log_prior=lambda s: Pf(s.x), dims=d, prior_flow=Flow(), xp=np, **({"dtype": cfg["dtype"]} if cfg.get("dtype") else {}))
         with np.errstate(all="ignore"):
             out = smp.draw_initial_samples(n)
         want = [draws[k][i] for k in range(state["k"]) for i in range(n) if (k, i) not in invalid][:n]
         msg = None
+        if cfg.get("check_c15"):
+            # only the precision clause is replayed for the C15 configuration
+            from harness.loop_replay import precision_of
+
+            pr = precision_of(out)
+            wantp = "float32" if cfg.get("dtype") == "float32" else "float64"
+            if any(v != wantp for v in pr.values()):
+                bad.append(f"C15: initial population after {state['k']} draw rounds (rows {sorted(invalid)} outside the prior) is not in the requested precision {wantp}: {pr}")
+                break
+            continue
         if len(out.x) != n:
             msg = f"{len(out.x)} particles instead of {n}"
         elif not np.array_equal(np.asarray(out.x), np.asarray(want)):
